@@ -66,15 +66,17 @@ def parse_interventions(interventions_dict: DictIv) -> Arr2:
 LG = "Obj('sempler.lganm.LGANM', p=Int, W=Arr2, means=Arr1, variances=Arr1)"
 
 
-@contract("sempler.lganm.LGANM.sample", cases={'population': [True, False], 'do_interventions': ['dict', 'none'], 'shift_interventions': ['dict', 'none'],
+@contract("sempler.lganm.LGANM.sample", cases={'init': [0, 1], 'population': [True, False], 'do_interventions': ['dict', 'none'], 'shift_interventions': ['dict', 'none'],
                                                'noise_interventions': ['dict', 'none'], 'random_state': ['none', 'int']},
           quick_cases=[{'population': True, 'do_interventions': 'dict', 'shift_interventions': 'dict', 'noise_interventions': 'dict', 'random_state': 'none'},
                        {'population': True, 'do_interventions': 'none', 'shift_interventions': 'none', 'noise_interventions': 'none', 'random_state': 'none'},
                        {'population': True, 'do_interventions': 'dict', 'shift_interventions': 'none', 'noise_interventions': 'none', 'random_state': 'none'},
                        {'population': True, 'do_interventions': 'none', 'shift_interventions': 'dict', 'noise_interventions': 'dict', 'random_state': 'none'},
                        {'population': False, 'do_interventions': 'dict', 'shift_interventions': 'none', 'noise_interventions': 'dict', 'random_state': 'int'},
-                       {'population': False, 'do_interventions': 'none', 'shift_interventions': 'none', 'noise_interventions': 'none', 'random_state': 'none'}],
-          self_from_init=True, init_case={'means': 'arr1', 'variances': 'arr1', 'random_state': 'none'})
+                       {'population': False, 'do_interventions': 'none', 'shift_interventions': 'none', 'noise_interventions': 'none', 'random_state': 'none'},
+                       # integer-typed model arrays: parameters must be honoured exactly whatever the dtype
+                       {'init': 1, 'population': True, 'do_interventions': 'dict', 'shift_interventions': 'dict', 'noise_interventions': 'none', 'random_state': 'none'}],
+          self_from_init=True, init_case=[{'means': 'arr1', 'variances': 'arr1', 'random_state': 'none'}, {'means': 'arr1i', 'variances': 'arr1i', 'random_state': 'none'}])
 def lganm_sample(self: Obj('sempler.lganm.LGANM', p=Int, W=Arr2, means=Arr1, variances=Arr1), n: Int):
     requires(lganm_ok(self), n >= 0, keys_ok(do_interventions, self.p), keys_ok(shift_interventions, self.p), keys_ok(noise_interventions, self.p))
     let(Wp=intervened_W(self, do_interventions),
